@@ -187,6 +187,7 @@ func init() {
 		Explain: "Decides: (K9) Sum/Prod/Argmax/Argmin(/Masked)/SliceMin/SliceMax/Reduce kernels equal the anchor table (accumulate with + from zero, * from one; update on strict comparison so the first index of the extreme wins; masked variants skip masked elements); (K1) all type specialisations of every reduction kernel incl. the axis-specialised reducers agree; (K3/K1arms) every arm of the reduction dispatchers and of the SumMethods/MinMethods/MaxMethods/Monotonic* tables uses its own label type and returns its own operation's triple; (O3) the caller's axis list is not mutated; (O8) the operand's access pattern is never aliased into a scratch AP that is recycled (operand unchanged); (L) layout rules of C16/C04 on the reduction entry points (see those properties). " +
 			"Not decided: the split/size/stride arithmetic of the first/last/default reducers and the axis renumbering loop.",
 		Run: func(rc *rules.RC) {
+			rules.DA(rc, 50)
 			fams := rules.Families(rc.P)
 			f := groupFilter("reduce")
 			rules.K1(rc, fams, f, 210)
@@ -215,6 +216,7 @@ func init() {
 			"Not decided: counts, run/edge finders, fill values, that valid positions get the unmasked value of elementwise operations.",
 		Quick: []string{"default", "inplacetranspose"},
 		Run: func(rc *rules.RC) {
+			rules.DA(rc, 50)
 			rules.I7(rc)
 			rules.K8(rc, 100)
 			rules.K3(rc, fileFilter("dense_maskcmp_methods.go"), 8, 100)
@@ -510,6 +512,7 @@ func init() {
 			"Not decided: behaviour of the Go operators themselves, accuracy of math routines, and agreement of results after conversion between types (a runtime relation).",
 		Assume: []string{"sibling specialisations are meant to be instances of one template (the genlib2 design)", "a template-wide change that K2's operator table does not cover is not detected by sibling comparison"},
 		Run: func(rc *rules.RC) {
+			rules.DA(rc, 50)
 			fams := rules.Families(rc.P)
 			rules.K1(rc, fams, nil, 2900)
 			rules.K3(rc, nil, 150, 1700)
